@@ -122,7 +122,7 @@ def _flows_to_position(b, l):
     return False
 
 
-def rule_a(ctx):
+def rule_a(ctx, rid="C06-A"):
     import re
     F = ctx.facts
     n = 0
@@ -144,29 +144,29 @@ def rule_a(ctx):
             okf = all(any(p.fullmatch(f) for p in pats) for _bb, f in forms)
             key = "%s:cursor#%s" % (fn, "|".join(sorted(f.replace(k, "K")[:50] for _bb, f in forms)))
             if not okf and not _flows_to_position(b, l):
-                ctx.info("C06-A", "%s: 0-initialised counter in a cell loop that feeds no position (%s) — not a column cursor" % (fn, forms))
+                ctx.info(rid, "%s: 0-initialised counter in a cell loop that feeds no position (%s) — not a column cursor" % (fn, forms))
                 continue
             n += 1
             good += 1 if okf else 0
-            ctx.check(okf, "C06-A", key + ":advance", b.term(forms[0][0])["span"], b.id,
+            ctx.check(okf, rid, key + ":advance", b.term(forms[0][0])["span"], b.id,
                       "a column cursor is advanced as %s; accepted forms: %s" % ([f for _bb, f in forms], [d for _p, d in ADVANCE]))
             # the update executes on every path through the loop body: once the update block is removed, the loop's
             # next() block can no longer reach itself
             for ubb, _f in forms:
                 nb = _inner_next(b, ubb)
                 if nb is None:
-                    ctx.violation("C06-A", key + ":in-loop", b.span, b.id, "cursor update is not inside a cell loop")
+                    ctx.violation(rid, key + ":in-loop", b.span, b.id, "cursor update is not inside a cell loop")
                     continue
                 some = _some_target(b, nb)
                 if some is None:
-                    ctx.violation("C06-A", key + ":in-loop", b.span, b.id, "cannot find the loop body entry")
+                    ctx.violation(rid, key + ":in-loop", b.span, b.id, "cannot find the loop body entry")
                     continue
                 cyc = nb in b.reach_from(some, avoid=[ubb])
-                ctx.check(not cyc, "C06-A", key + ":on-every-path", b.term(ubb)["span"], b.id,
+                ctx.check(not cyc, rid, key + ":on-every-path", b.term(ubb)["span"], b.id,
                           "a path through the loop body skips the cursor update (cells after it would land in the wrong column)")
-        ctx.check(good >= want_n, "C06-A", "%s:cursors-present" % fn, b.span, b.id,
+        ctx.check(good >= want_n, rid, "%s:cursors-present" % fn, b.span, b.id,
                   "%d column cursor(s) advancing by the cell's colspan found, %d confirmed by hand" % (good, want_n))
-    ctx.floor("C06-A", "column cursors", n, 6)
+    ctx.floor(rid, "column cursors", n, 6)
 
 
 def rule_b(ctx):
